@@ -199,7 +199,7 @@ def persist_instances(metamodel, path, mode='w'):
     Persist all instances in a *metamodel* by serializing them and saving to a 
     *path* on disk.
     '''
-    with open(path, mode) as f:
+    with open(path, mode, newline='') as f:
         for inst in metamodel.instances:
             s = serialize_instance(inst)
             f.write(s)
@@ -210,7 +210,7 @@ def persist_schema(metamodel, path, mode='w'):
     Persist all class and association definitions in a *metamodel* by 
     serializing them and saving to a *path* on disk.
     '''
-    with open(path, mode) as f:
+    with open(path, mode, newline='') as f:
         for kind in sorted(metamodel.metaclasses.keys()):
             s = serialize_class(metamodel.metaclasses[kind].clazz)
             f.write(s)
@@ -225,7 +225,7 @@ def persist_unique_identifiers(metamodel, path, mode='w'):
     Persist all unique identifiers in a *metamodel* by serializing them and
     saving to a *path* on disk.
     '''
-    with open(path, mode) as f:
+    with open(path, mode, newline='') as f:
         for metaclass in metamodel.metaclasses.values():
             for index_name, attribute_names in metaclass.indices.items():
                 attribute_names = ', '.join(attribute_names)
@@ -240,7 +240,7 @@ def persist_database(metamodel, path, mode='w'):
     Persist all instances, class definitions and association definitions in a
     *metamodel* by serializing them and saving to a *path* on disk.
     '''
-    with open(path, mode) as f:
+    with open(path, mode, newline='') as f:
         for kind in sorted(metamodel.metaclasses.keys()):
             metaclass = metamodel.metaclasses[kind]
             s = serialize_class(metaclass.clazz)
